@@ -129,6 +129,11 @@ def run(ctx):
     ctx.coverage["rows_exported_exhaustively"] = len(rows)
     ctx.coverage["simulated_batches"] = len(batches)
     ctx.coverage["exhaustive"] = False
+    if not ctx.violations:
+        # jsonrpc/websocket.go: the same answers, one per owed frame, whole frames, over a real websocket connection
+        ctx.include("G04", accept=lambda k: not k.startswith(("ws-notification", "ws-close", "ws-cross-connection", "ws-conn",
+                                                              "ws-stream:unexpected-notification", "ws-stream:expected-notification")),
+                    why="jsonrpc/websocket.go: request/response correlation and well-formedness on the websocket transport")
     ctx.assumptions += [
         "an id member that is null is read as 'no id' (notification), as the code and JSON-RPC 1.0 do",
         "for an INVALID request the response id may be null or the request's own id",
